@@ -48,7 +48,8 @@ def generate(seed, tier):
                         'peer': rng.randrange(4), 'route': rng.choice(['relay', 'relay', 'response'])})
         elif x < 0.9:
             ops.append({'op': 'side', 'depth': rng.choice([1, 1, 2, 3]), 'len': rng.choice([1, 1, 2, 3, 4]),
-                        'spec': LC.gen_tx_spec(rng), 'miner': rng.randrange(12), 'peer': rng.randrange(4)})
+                        'spec': LC.gen_tx_spec(rng), 'miner': rng.randrange(12), 'peer': rng.randrange(4),
+                        'route': rng.choice(['relay', 'relay', 'response'])})      # a competing branch may also come by bulk download
         elif x < 0.93:
             ops.append({'op': 'race', 'spec': LC.gen_tx_spec(rng), 'variant': rng.choice(['rival_mined', 'same_mined']),
                         'miner': rng.randrange(12)})
@@ -367,7 +368,7 @@ def execute(script):
                         tip = chain.blocks[rules.block_id(blk)]
                         continue
                     before_head = head()
-                    if not deliver_block(blk, op.get('peer', 0)):
+                    if not deliver_block(blk, op.get('peer', 0), op.get('route', 'relay')):
                         break
                     if not expect_block_accepted(blk):
                         res.bump('block_not_accepted')
@@ -392,6 +393,8 @@ def execute(script):
                 tx = txs[0]
                 r0 = sorted(refs_of(tx))[0]
                 v0, pub0 = hb.utxo[r0]
+                if v0 <= 0:
+                    continue            # (an output worth nothing cannot fund the rival payment)
                 if op.get('variant') == 'same_mined':
                     mined = [tx]
                 else:
